@@ -212,7 +212,13 @@ impl<T: Ord + Clone> Collection<T> {
         for (key, self_kind) in &mut self.known {
             if let Some(other_kind) = other.known.remove(key) {
                 if overwrite {
-                    *self_kind = other_kind;
+                    if other_kind.contains_undefined() && !other_kind.is_never() {
+                        // the field may be missing from `other`, in which case the value
+                        // of `self` is kept
+                        *self_kind = other_kind.without_undefined().union(self_kind.clone());
+                    } else {
+                        *self_kind = other_kind;
+                    }
                 } else {
                     self_kind.merge_keep(other_kind, overwrite);
                 }
@@ -237,6 +243,12 @@ impl<T: Ord + Clone> Collection<T> {
             for (key, mut other_kind) in other.known {
                 if !overwrite {
                     other_kind.merge_keep(self_unknown_kind.clone(), overwrite);
+                } else if other_kind.contains_undefined() && !other_kind.is_never() {
+                    // the field may be missing from `other`, in which case an unknown
+                    // field of `self` (if any) is kept
+                    other_kind = other_kind
+                        .without_undefined()
+                        .union(self_unknown_kind.clone());
                 }
                 self.known_mut().insert(key, other_kind);
             }
